@@ -397,7 +397,19 @@ def gen_store_case(rng, rich_records=False):
     if written and rng.chance(0.5):
       p = rng.choice(written)       # bias towards reading / rewriting what exists
     if p in seq_paths:
-      k = rng.weighted([(4, 'seqw_a'), (2, 'seqw_w'), (4, 'seqr'), (1, 'exists')])
+      k = rng.weighted([(4, 'seqw_a'), (2, 'seqw_w'), (4, 'seqr'), (1, 'exists'), (4, 'jw_a'), (2, 'jw_w'), (4, 'jr'),
+                        (1, 'partial')])
+      if k.startswith('jw'):
+        ops.append({'k': 'jw', 'p': p, 'm': k[-1], 'v': [tg.tree(rng.below(3)) for _ in range(rng.below(4))]})
+        written.append(p)
+        continue
+      if k == 'jr':
+        ops.append({'k': 'jr', 'p': p})
+        continue
+      if k == 'partial':
+        # a writer that died in the middle of a line: the file does not end in a newline
+        ops.append({'k': 'write', 'p': p, 'c': rng.choice(['[1, 2', '{"a": 1}', '12', '"abc']), 'm': 'a'})
+        continue
       if k.startswith('seqw'):
         pool = ['r1', 'rec two', '', '{"a": 1}', 'é\U0001F600', ' lead', 'trail ', '\t', 'x\ry']
         if rich_records:
@@ -526,6 +538,20 @@ def gen_dna_case(rng):
   cloneable = [meta['d'][0][0]] if meta and rng.chance(0.3) else []
   return {'kind': 'dna', 'nest': gen_nest(rng, rng.randint(0, 3)), 'meta': meta, 'cloneable': cloneable,
           'child_meta': rng.chance(0.08)}
+
+
+def lower_ops(ops):
+  """jsonl operations as the sequence operations they are: `jw` adds `to_json_str(v)` records,
+  `jr` reads the lines (the values are `from_json_str` of them)."""
+  out = []
+  for op in ops:
+    if op['k'] == 'jw':
+      out.append({'k': 'seqw', 'p': op['p'], 'm': op['m'], 'r': [json_text_of_tree(v) for v in op['v']]})
+    elif op['k'] == 'jr':
+      out.append({'k': 'seqr', 'p': op['p']})
+    else:
+      out.append(op)
+  return out
 
 
 def stale_mask(ops):
@@ -1024,6 +1050,19 @@ class _Impl:
         elif k == 'seqr':
           with pg_io.open_sequence(p, 'r') as f:
             outs.append({'r': list(iter(f))})
+        elif k == 'jw':
+          with pg.open_jsonl(p, op['m']) as f:
+            for v in op['v']:
+              f.add(self.build(v))
+          outs.append(None)
+        elif k == 'jr':
+          with pg_io.open_sequence(p, 'r') as f:
+            raw = list(iter(f))
+
+          def read_values():
+            with pg.open_jsonl(p, 'r') as g:
+              return [self.to_wire(x) for x in iter(g)]
+          outs.append({'r': raw, 'v': self.attempt(read_values)})
         elif k == 'exists':
           outs.append(bool(pg_io.path_exists(p)))
         elif k == 'listdir':
@@ -1045,7 +1084,9 @@ class _Impl:
     outs = self.run_ops(case['ops'], '/mem')
     model = []
     for o in outs:
-      if isinstance(o, dict) and 'v' in o:
+      if isinstance(o, dict) and 'v' in o and 'r' in o:
+        model.append({'r': o['r']})
+      elif isinstance(o, dict) and 'v' in o:
         model.append({'c': o['c']})
       else:
         model.append(o)
@@ -1441,7 +1482,7 @@ class C05(Prop):
       return {'op': k, 'env': ENV, 'json': case['json'], 'ap': case['ap']}
     if k == 'store':
       ops = []
-      for op in case['ops']:
+      for op in lower_ops(case['ops']):
         if op['k'] == 'save':
           ops.append({'k': 'save', 'p': op['p'], 'c': json_text_of_tree(op['v'])})
         else:
@@ -1593,9 +1634,15 @@ class C05(Prop):
     """Read-your-writes against the abstract store `path key -> content / records`."""
     files = {}
     dirs = {()}
-    for i, (op, o) in enumerate(zip(case['ops'], outs)):
+    jvals = {}        # key -> values appended through open_jsonl since the last 'w' (None: unknown)
+    for i, (orig, op, o) in enumerate(zip(case['ops'], lower_ops(case['ops']), outs)):
       k, key = op['k'], norm_path(op['p'])
       err = isinstance(o, dict) and o.get('err')
+      if orig['k'] == 'jw' and not err:
+        base = jvals.get(key) if orig['m'] == 'a' and key in files else []
+        jvals[key] = None if base is None else base + list(orig['v'])
+      elif k in ('save', 'write', 'seqw') and not err:
+        jvals[key] = None
       if k in ('save', 'seqw', 'mkdirs') and not err:
         upto = key if k == 'mkdirs' else key[:-1]
         for n in range(len(upto) + 1):
@@ -1645,6 +1692,9 @@ class C05(Prop):
             sig = 'store:record-with-newline' if bad_nl else ('store:record-with-cr-on-std-fs' if bad_cr else 'store:records-mismatch')
             return {'signature': sig,
                     'what': '[%s] op %d: records of %s are %s, appended %s' % (label, i, op['p'], json.dumps(o)[:200], json.dumps(prev[1])[:200])}
+          if orig['k'] == 'jr' and jvals.get(key) is not None and o['v'] != {'ok': jvals[key]}:
+            return {'signature': 'store:jsonl-values-mismatch',
+                    'what': '[%s] op %d: open_jsonl(%s) yields %s, added %s' % (label, i, op['p'], json.dumps(o['v'])[:200], json.dumps(jvals[key])[:200])}
       elif k == 'exists':
         if key in files and o is not True:
           return {'signature': 'store:exists-false', 'what': '[%s] op %d: %s written but exists() = %s' % (label, i, op['p'], o)}
@@ -1778,9 +1828,9 @@ class C05(Prop):
       ops = case['ops']
       wrote = set()
       for op in ops:
-        if op['k'] in ('save', 'write', 'seqw'):
+        if op['k'] in ('save', 'write', 'seqw', 'jw'):
           wrote.add(norm_path(op['p']))
-        elif op['k'] in ('load', 'seqr') and norm_path(op['p']) in wrote:
+        elif op['k'] in ('load', 'seqr', 'jr') and norm_path(op['p']) in wrote:
           return True
       return False
     return case['what'] != 'spec' or case['expr'][0] in ('List', 'Tuple', 'Dict', 'Union')
